@@ -365,7 +365,7 @@ pub fn replay(v: &Value) -> Outcome {
 
 pub fn run(env: &Env, known: &Known, started: Instant, replayed: u64, replay_violations: Vec<Violation>) -> i32 {
     verify_catalogue();
-    let cfg = ChoiceRun { env, pid: PID, part: "names", cases: env.tier.pick(40_000, 1_200_000), max_len: 600, known };
+    let cfg = ChoiceRun { env, pid: PID, part: "names", cases: env.tier.pick(160_000, 1_200_000), max_len: 600, known };
     let rr = run_choices(&cfg, run_case);
     let ev = Evidence {
         env, pid: PID, level: "exploration",
